@@ -188,8 +188,20 @@ def run(ck):
         final_locals.add(t["dest"]["l"])
     if save_agg is not None:
         caps = [o["pl"]["l"] for o in save_agg["rv"]["ops"] if o.get("k") in ("copy", "move") and "p" not in o["pl"]]
-        ck.require(bool(final_locals & set(caps)), "C06-R3", "final patch handed by value to the save workers",
-                   "the save closure does not capture the loaded final patch by value", par.where(save_agg))
+        # by value, or through a shared reference to the local that holds the loaded value (which nothing re-assigns)
+        byref = set()
+        for c_ in caps:
+            one = df.defs_of(par).single(c_)
+            if one and one[0] == "stmt" and one[3]["rv"]["k"] == "ref" and not one[3]["rv"].get("mut") and "p" not in one[3]["rv"]["pl"]:
+                src = one[3]["rv"]["pl"]["l"]
+                holders = {src}
+                o2 = df.defs_of(par).single(src)
+                if o2 and o2[0] == "stmt" and o2[3]["rv"]["k"] == "use" and o2[3]["rv"]["op"].get("k") in ("copy", "move") and "p" not in o2[3]["rv"]["op"]["pl"]:
+                    holders.add(o2[3]["rv"]["op"]["pl"]["l"])
+                if holders & final_locals and len(df.defs_of(par).all(src)) == 1 and src not in df.defs_of(par).mut_borrowed:
+                    byref.add(c_)
+        ck.require(bool(final_locals & set(caps)) or bool(byref), "C06-R3", "final patch handed by value to the save workers",
+                   "the save closure does not capture the loaded final patch (by value or by shared reference)", par.where(save_agg))
         # and the closure forwards exactly that capture to save_files_worker
         for bb, t, c in calls_named(save_cl, A["save_worker"]):
             e = df.operand_expr(save_cl, t["args"][3])
